@@ -244,7 +244,7 @@ func genBufferMethods() {
 		fd := t.helpers[n]
 		ss := fd.Body.List
 		bad := func(why string) { fail(n + ": " + why) }
-		if len(ss) < 3 || stmtsString(ss[:1]) != "bb:=Bytes(b.r,call.This)" {
+		if len(ss) < 3 || stmtsString(ss[:1]) != "bb:=b.bytes(call.This)" { // bytes(): Bytes() with the nested-conversion guard (fix c0ae6bb)
 			bad("first statement")
 			continue
 		}
